@@ -82,3 +82,22 @@ def gnDoc (x0 : X) (d : Doc) : List (Node × X) := d.defs.flatMap (gnDef down x0
 end
 
 end PyGql.Validate.Spec
+
+namespace PyGql.Validate.Spec
+open PyGql PyGql.Validate
+
+/-- chain of enclosing directive locations: the kind of node a directive is attached to is the head -/
+def ancDown : Node → List Anc → List Anc
+  | .operation kind .., x => .op kind :: x
+  | .field .., x => .field :: x
+  | .spread .., x => .spread :: x
+  | .inline .., x => .inline :: x
+  | .fragmentDef .., x => .fragDef :: x
+  | _, x => x
+
+/-- **5.7.1 / 5.7.2 Directives are defined and used in a location they list** -/
+def knownDirectives (s : SchemaD) (d : Doc) : Prop :=
+  ∀ p ∈ gnDoc ancDown [] d, ∀ dr, p.1 = Node.directive dr →
+    ∃ sd, findDirective s dr.name = some sd ∧ ∀ a rest, p.2 = a :: rest → a.location ∈ sd.locations
+
+end PyGql.Validate.Spec
